@@ -15,6 +15,15 @@ V(vm, x)       == IF vm = "coerce" /\ x \in Coercible THEN x - 10 ELSE x
 AllOK(vm, A)   == \A x \in A : Accepts(vm, x)
 VSet(vm, A)    == {V(vm, x) : x \in A}
 
+\* malformed operands, as item codes inside an argument set: the operand is not iterable at all (the int 5); an iterable
+\* whose last item is unhashable ([..., [1]]); an iterator that raises ZeroDivisionError after yielding the other items
+NotIterable == -1   Unhashable == -2   RaisingIter == -3
+BadItems == {NotIterable, Unhashable, RaisingIter}
+Clean(A) == A \ BadItems
+CleanAll(As) == [i \in 1..Len(As) |-> Clean(As[i])]
+ArgExcs(As) == (IF \E i \in 1..Len(As) : As[i] \cap {NotIterable, Unhashable} # {} THEN {"TypeError"} ELSE {})
+               \cup (IF \E i \in 1..Len(As) : RaisingIter \in As[i] THEN {"ZeroDivisionError"} ELSE {})
+
 Ok(post, ret) == [post |-> post, ret |-> ret, excs |-> {""}]
 Fail(pre, ex) == [post |-> pre, ret |-> None, excs |-> ex]
 
@@ -43,8 +52,35 @@ OpSymDiff_KF15(s, vm, A) == LET rem == s \cap A IN Ok((s \ rem) \cup (VSet(vm, A
 \* copy behaves like adding x to the original would
 \* a[1] for the in-place operators: 0 set, 1 frozenset, 2 a list (not a set: Python raises TypeError)
 InplaceOps == {"ior", "iand", "isub", "ixor"}
+\* set.intersection_update(*iterables) as CPython computes it: the iterables in order, each one consumed only until every
+\* item of the current result has been met - a malformed tail behind the items is reached only otherwise
+RECURSIVE InterFold(_, _, _)
+InterFold(cur, As, i) ==
+  IF i > Len(As) THEN [set |-> cur, excs |-> {}]
+  ELSE LET A == As[i] IN
+       IF A \cap BadItems = {} THEN InterFold(cur \cap A, As, i + 1)
+       ELSE IF NotIterable \notin A /\ cur # {} /\ cur \subseteq Clean(A) THEN InterFold(cur, As, i + 1)
+       ELSE [set |-> cur, excs |-> ArgExcs(<<A>>)]
+Validating(op) == op \in {"update", "ior", "ixor", "symmetric_difference_update", "construct"}
+\* copy kinds of "copyadd": 0 copy.copy, 1 deepcopy, 2 pickle of a TraitSet; 3 copy.copy, 4 deepcopy, 5 pickle of the
+\* TraitSetObject held by a Set trait, 6: the very TraitSetObject after its owner was garbage-collected
+\* Named deviation (known finding C07/F24): a TraitSetObject pickled on its own comes back without its trait
+\* (__setstate__: trait = None) and accepts everything
+KF24Guard(a) == a[1] = 5
 Apply(op, s, vm, a, As, got) ==
   IF op \in InplaceOps /\ a[1] = 2 THEN Fail(s, {"TypeError"}) ELSE
+  \* a malformed operand: the exception class of the builtin set (or the TraitError of an invalid item met before
+  \* it), and nothing changes - also where the builtin set is left half-updated
+  IF op = "intersection_update" /\ ArgExcs(As) # {} THEN
+     LET f == InterFold(s, As, 1) IN IF f.excs # {} THEN Fail(s, f.excs) ELSE Ok(f.set, None)
+  ELSE IF ArgExcs(As) # {} THEN
+     \* (to a validator that is not the identity the unhashable item is an invalid item as well)
+     Fail(s, ArgExcs(As) \cup (IF Validating(op) /\ (~AllOK(vm, UNION {Clean(As[i]) : i \in 1..Len(As)})
+                                                      \/ (vm # "id" /\ \E i \in 1..Len(As) : Unhashable \in As[i]))
+                               THEN {"TraitError"} ELSE {}))
+  ELSE IF op \in {"add", "discard", "remove"} /\ a[1] = Unhashable THEN
+     Fail(s, {"TypeError"} \cup (IF op = "add" /\ vm # "id" THEN {"TraitError"} ELSE {}))
+  ELSE
   CASE op = "add"       -> OpAdd(s, vm, a[1])
     [] op = "discard"   -> OpDiscard(s, a[1])
     [] op = "remove"    -> OpRemove(s, a[1])
